@@ -26,6 +26,7 @@ use unicode_width::UnicodeWidthStr;
 include!("c12_parts/brackets.rs");
 include!("c12_parts/chains.rs");
 include!("c12_parts/resume.rs");
+include!("c12_parts/stage.rs");
 
 // ------------------------------------------------------------------------------------------------
 // markers used while generating program text (stripped by `flatten`)
@@ -684,6 +685,27 @@ impl G {
                 lines.push(format!("  .zz{i}{}", if self.rng.chance(1, 2) { "?" } else { "" }));
             }
             let kind = format!("callform=chain{cf}{}", if more == 0 { chk } else { "" });
+            return Expr { lines, atomic: false, stmt_only: false, is_call: true, kind };
+        }
+        if first_arg.is_none() && self.rng.chance(1, 8) {
+            // piped calls, one `->` per line; the call site is the line of the callee token
+            let pf = self.rng.below(8);
+            let wrapped = format!("id1({{go: {callee}}}).go");
+            let lines = match pf {
+                0 => vec![a.clone(), format!("{c}{e}  -> {callee}")],
+                1 => vec![a.clone(), "  -> id1".to_string(), format!("{c}{e}  -> {callee}")],
+                2 => vec![a.clone(), "  -> id1".to_string(), format!("{c}{e}  -> {callee} {b}")],
+                3 => vec![a.clone(), format!("{c}{e}  -> {callee}({b})")],
+                4 => vec![a.clone(), "  -> id1".to_string(), format!("{c}{e}  -> {wrapped}")],
+                5 => vec![format!("id1({a})"), format!("{c}{e}  -> ({callee})")],
+                6 => vec![format!("{a} ->"), format!("{c}{e}  {callee}")],
+                _ => vec![format!("[{a}, {b}]"), "  -> id1".to_string(), format!("{c}{e}  -> {callee}")],
+            };
+            let mut lines = lines;
+            if !self.calls_return && pf != 6 && self.rng.chance(1, 3) {
+                lines.push("  -> id1".to_string());
+            }
+            let kind = format!("callform=pipe{pf}");
             return Expr { lines, atomic: false, stmt_only: false, is_call: true, kind };
         }
         let kind = format!("callform={f}");
@@ -1388,7 +1410,20 @@ impl Ctx {
                 }
             }
             Real::Runtime { message, frames, rendered, .. } => {
-                let lines: Vec<String> = frames.iter().map(|f| f.map(|s| format!("0:{}", s.start.line)).unwrap_or("0:none".into())).collect();
+                let mut lines: Vec<String> = frames.iter().map(|f| f.map(|s| format!("0:{}", s.start.line)).unwrap_or("0:none".into())).collect();
+                // open finding F-C12-4 (cause rule on the frame's span, see attribute_pipe_frame)
+                let want: Vec<&str> = model.split(' ').skip(1).collect();
+                if model.starts_with("uncaught ") && want.len() == lines.len() {
+                    for i in 0..lines.len() {
+                        if lines[i] != want[i] {
+                            if let (Some(sp), Some(l)) = (frames[i], want[i].strip_prefix("0:").and_then(|x| x.parse::<usize>().ok())) {
+                                if self.attribute_pipe_frame(src, &sp, l) {
+                                    lines[i] = want[i].to_string();
+                                }
+                            }
+                        }
+                    }
+                }
                 real_canon = format!("uncaught {}", lines.join(" "));
                 if real_canon != model {
                     fail = Some((
@@ -1521,6 +1556,52 @@ impl Ctx {
         }
     }
 
+    /// cause rules of open findings about compile error positions (active only while the finding is
+    /// listed as `known`; once it is `fixed` the same observation is a VIOLATION)
+    fn attribute_compile_error(&mut self, src: &str, sp: &Span, msg: &str, expect_line: usize) -> bool {
+        let ls = lines_of(src);
+        let at_span: String = ls.get(sp.start.line as usize).map(|l| l.chars().skip(sp.start.column as usize).collect()).unwrap_or_default();
+        let earlier = (sp.start.line as usize) < expect_line;
+        // F-C12-3: message identity + the reported token is the `switch` / `match` keyword itself
+        let id = if earlier && msg.starts_with("'else' can only be used in the last arm in a ") && (at_span.starts_with("switch") || at_span.starts_with("match")) {
+            "F-C12-3"
+        // F-C12-5: message identity + the reported span is the nested parameter tuple that contains
+        // the offending entry (starts with `(`, ends after the expected line)
+        } else if earlier && msg == "args with ellipses are only allowed in first or last position" && at_span.starts_with('(') && (sp.end.line as usize) >= expect_line {
+            "F-C12-5"
+        } else {
+            return false;
+        };
+        if !self.open.iter().any(|x| x == id) {
+            return false;
+        }
+        *self.known_hits.entry(id.to_string()).or_default() += 1;
+        true
+    }
+
+    /// F-C12-4: a call site that is a pipe into a plain identifier (`-> f`, `-> (f)`, or `f` on the
+    /// line after a trailing `->`) is reported with the span of the whole pipe expression: the span
+    /// ends at the callee on the expected line and starts on an earlier line
+    fn attribute_pipe_frame(&mut self, src: &str, sp: &Span, expect_line: usize) -> bool {
+        if !self.open.iter().any(|x| x == "F-C12-4") {
+            return false;
+        }
+        let ls = lines_of(src);
+        if sp.end.line as usize != expect_line || sp.start.line as usize >= expect_line {
+            return false;
+        }
+        let Some(l) = ls.get(expect_line) else { return false };
+        let upto: String = l.chars().take(sp.end.column as usize).collect();
+        let t = upto.trim_start();
+        let t = t.strip_prefix("->").unwrap_or(t).trim_start();
+        let t = t.strip_prefix('(').and_then(|x| x.strip_suffix(')')).unwrap_or(t);
+        let is_id = !t.is_empty() && t.chars().all(|c| c.is_ascii_alphanumeric() || c == '_') && !t.starts_with(|c: char| c.is_ascii_digit());
+        if is_id {
+            *self.known_hits.entry("F-C12-4".to_string()).or_default() += 1;
+        }
+        is_id
+    }
+
     // ---- (D) broken variants ----
     fn broken_case(&mut self, src: &str, expect_line: usize, kind: &str, quiet: bool) -> Option<String> {
         let perr = kvh::catch(|| koto_parser::Parser::parse(src).err().map(|e| (e.span, e.error.to_string())));
@@ -1554,6 +1635,8 @@ impl Ctx {
                 self.rep.bump(&format!("parse_error={}", msg.chars().take(40).collect::<String>()));
                 if let Err(why) = span_inside(src, &sp) {
                     fail = Some(("C12:compile-error-outside-text".into(), det(&why, json!({"span": span_s(&sp), "error": msg}))));
+                } else if sp.start.line as usize != expect_line && self.attribute_compile_error(src, &sp, &msg, expect_line) {
+                    return None;
                 } else if sp.start.line as usize != expect_line {
                     fail = Some((
                         "C12:compile-error-line".into(),
@@ -1742,6 +1825,19 @@ fn mutate(rng: &mut Rng, p: &Planted) -> Option<(String, usize, String)> {
         kind.push('\t');
         kind.push_str(&b.stats.join(" "));
         return Some((join(&lines, p.trailing), at + b.bad_rel, kind));
+    }
+    if rng.chance(1, 6) {
+        // an error of the bytecode compiler / of the parser's arm bookkeeping whose offending
+        // construct sits on a later line than the start of its statement (c12_parts/stage.rs)
+        let b = gen_stage_break(rng, p.lines.len());
+        let tops: Vec<(usize, usize)> = p.flat_stmts.iter().copied().filter(|(_, ind)| *ind == 0).collect();
+        let (at, ind) = if b.top_only { *rng.pick(&tops) } else { *rng.pick(&p.flat_stmts) };
+        let mut lines = p.lines.clone();
+        let pad = " ".repeat(ind);
+        for (i, l) in b.lines.iter().enumerate() {
+            lines.insert(at + i, format!("{pad}{l}"));
+        }
+        return Some((join(&lines, p.trailing), at + b.bad_rel, b.kind));
     }
     for _ in 0..6 {
         let k = rng.below(11);
@@ -2361,6 +2457,10 @@ fn main() {
         survey_brackets(argv[2].parse().unwrap(), argv[3].parse().unwrap());
         return;
     }
+    if argv.len() >= 4 && argv[1] == "--survey-stage" {
+        survey_stage(argv[2].parse().unwrap(), argv[3].parse().unwrap());
+        return;
+    }
     if argv.len() >= 3 && argv[1] == "--where" {
         // developer aid: one compact line per script (separated by "\n---\n"): where things are reported
         let src = std::fs::read_to_string(&argv[2]).unwrap();
@@ -2438,6 +2538,7 @@ fn main() {
         }
     }
 
+    cx.check_stage_table();
     let mut rng = Rng::new(args.seed);
     let t = args.thorough();
     let (n_map, n_exc, n_pl, n_br, n_dbg, n_mod) = if t { (40000, 40000, 60000, 40000, 12000, 6000) } else { (3000, 3000, 4000, 3000, 1000, 400) };
